@@ -16,9 +16,11 @@ import argparse, glob, hashlib, json, os, re, shutil, subprocess, sys, time
 
 VERIF = os.path.dirname(os.path.abspath(__file__))
 REPO = os.environ.get("VERIF_REPO", "/repo")
-BUILD = os.path.join(VERIF, ".build")
+BUILD = os.environ.get("VERIF_BUILD", os.path.join(VERIF, ".build"))
 MOD = "github.com/libp2p/go-libp2p"
-ENGINE_PKGS = ["vrep", "seqmc", "vsched", "vsync", "vatomic", "memconn", "vfix"]
+def engine_pkgs():
+    return sorted(d for d in os.listdir(os.path.join(VERIF, "engine"))
+                  if d != "instr" and os.path.isdir(os.path.join(VERIF, "engine", d)))
 
 def log(*a):
     print("[check]", *a, file=sys.stderr, flush=True)
@@ -50,7 +52,10 @@ def go_run_env():
     return env
 
 def load_checks():
-    return json.load(open(os.path.join(VERIF, "checks.json")))
+    out = {}
+    for f in sorted(glob.glob(os.path.join(VERIF, "checks", "C*.json"))):
+        out[os.path.basename(f)[:-5]] = json.load(open(f))
+    return out
 
 def build_instr():
     src = os.path.join(VERIF, "engine", "instr")
@@ -69,7 +74,7 @@ def make_overlay(pid, part, bdir):
     """Returns path of overlay json. All generated files live under bdir."""
     rep = {}
     # engine packages -> virtual packages under /repo/x/verif/<name>
-    for name in ENGINE_PKGS:
+    for name in engine_pkgs():
         d = os.path.join(VERIF, "engine", name)
         for f in sorted(glob.glob(os.path.join(d, "*.go"))):
             if f.endswith("_test.go"):
